@@ -221,9 +221,6 @@ func (p propStore) PropStatus(s, d uint8, n uint64) (store.PropStatus, error) {
 
 // measureEvm: what the real listener + deposit handler do with this one deposit alone.
 func measureEvm(d Dep, nonce uint64, retry bool) DepObs {
-	if wfEvm(d) {
-		return DepObs{Good: true, Dest: d.Dest}
-	}
 	out, dest := guarded(func() (*message.Message, error, bool) {
 		if d.Kind == "otheraddr" && retry {
 			return nil, nil, true
@@ -237,7 +234,7 @@ func measureEvm(d Dep, nonce uint64, retry bool) DepObs {
 		m, err := newEthDepositHandler().HandleDeposit(sourceDomain, x.DestinationDomainID, x.DepositNonce, x.ResourceID, x.Data, x.HandlerResponse, "m", x.Timestamp)
 		return m, err, false
 	})
-	return DepObs{Good: false, Out: out, Dest: dest}
+	return DepObs{Good: wfEvm(d), Out: out, Dest: dest}
 }
 
 func driveEvm(c Case) Obs {
@@ -357,9 +354,6 @@ func (s *subConn) UpdateMetatdata() error                             { return n
 func (s *subConn) FetchEvents(a, b *big.Int) ([]*parser.Event, error) { return s.range_, nil }
 
 func measureSub(d Dep, nonce uint64) DepObs {
-	if wfSub(d) {
-		return DepObs{Good: true, Dest: d.Dest}
-	}
 	out, dest := guarded(func() (*message.Message, error, bool) {
 		ev := subEvent(d, nonce)
 		if ev.Name != "SygmaBridge.Deposit" {
@@ -372,7 +366,7 @@ func measureSub(d Dep, nonce uint64) DepObs {
 		m, err := newSubDepositHandler().HandleDeposit(sourceDomain, x.DestDomainID, x.DepositNonce, x.ResourceID, x.CallData, x.TransferType, "m", x.Timestamp)
 		return m, err, false
 	})
-	return DepObs{Good: false, Out: out, Dest: dest}
+	return DepObs{Good: wfSub(d), Out: out, Dest: dest}
 }
 
 func driveSub(c Case) Obs {
@@ -480,9 +474,7 @@ func (c *btcConn) GetBlockVerboseTx(*chainhash.Hash) (*btcjson.GetBlockVerboseTx
 }
 
 func measureBtc(d Dep, idx uint64) DepObs {
-	if dest, ok := wfBtc(d); ok {
-		return DepObs{Good: true, Dest: dest}
-	}
+	_, good := wfBtc(d)
 	res, feeAddr := btcSetup()
 	out, dest := guarded(func() (*message.Message, error, bool) {
 		x, isDep, err := btclistener.DecodeDepositEvent(btcTx(d, idx), res[[32]byte{1}], feeAddr)
@@ -495,7 +487,7 @@ func measureBtc(d Dep, idx uint64) DepObs {
 		m, err := btclistener.NewBtcDepositHandler().HandleDeposit(sourceDomain, idx, x.ResourceID, x.Amount, x.Data, big.NewInt(100), time.Unix(0, 0))
 		return m, err, false
 	})
-	return DepObs{Good: false, Out: out, Dest: dest}
+	return DepObs{Good: good, Out: out, Dest: dest}
 }
 
 func driveBtc(c Case) Obs {
